@@ -257,6 +257,8 @@ class PersLandscapeApprox(PersLandscape):
             The other summand.
         """
         super().__add__(other)
+        self.compute_landscape()
+        other.compute_landscape()
         if self.start != other.start:
             raise ValueError("Start values of grids do not coincide")
         if self.stop != other.stop:
@@ -274,6 +276,7 @@ class PersLandscapeApprox(PersLandscape):
 
     def __neg__(self):
         """Negates an approximate persistence landscape"""
+        self.compute_landscape()
         return PersLandscapeApprox(
             start=self.start,
             stop=self.stop,
@@ -302,6 +305,7 @@ class PersLandscapeApprox(PersLandscape):
             The real scalar to be multiplied.
         """
         super().__mul__(other)
+        self.compute_landscape()
         return PersLandscapeApprox(
             start=self.start,
             stop=self.stop,
